@@ -98,7 +98,7 @@ def cache_side(ctx):
     seen.add(k)
     traces.append(tr)
     origins.append(org)
-  nwork = ctx.pick(6, 30)
+  nwork = ctx.pick(6, 18)
   for w in range(nwork):
     nr = ctx.rng.choice([1, 2, 2, 3])
     mx, pre, s_ops, w_ops = flowsys.gen_workload(ctx.rng, nr)
@@ -110,10 +110,10 @@ def cache_side(ctx):
       run_once.last = tr
       return log
     base = dict(cfg=cfg, s_ops=s_ops, w_ops=w_ops)
-    for forced, log in sched.explore_bounded(run_once, 2, limit=ctx.pick(150, 6000), rng=ctx.rng):
+    for forced, log in sched.explore_bounded(run_once, 2, limit=ctx.pick(150, 2500), rng=ctx.rng):
       ctx.evaluations += 1
       sink(run_once.last, dict(base, kind='bounded', forced=sorted(forced.items())))
-    for i in range(ctx.pick(40, 600)):
+    for i in range(ctx.pick(40, 300)):
       seed = ctx.rng.randrange(1 << 30)
       rr = random.Random(seed)
       run_once(sched.random_chooser(rr, switch_p=rr.choice([0.05, 0.2, 0.5])))
@@ -203,7 +203,7 @@ def relay_side(ctx):
              dict(nd=2, maxq=10, mpm=4, flow=True, dynamic=False, nr=1, low_pct=0.2, hard_pct=2.0),
              dict(nd=2, maxq=3, mpm=1, flow=True, dynamic=False, nr=3, protocol='line')]
   for ci, cfg in enumerate(cfgs):
-    consts, traces, origins = relaycheck.run_traces(ctx, rm, cfg, nsim=ctx.pick(30, 300), nrandom=ctx.pick(120, 1500),
+    consts, traces, origins = relaycheck.run_traces(ctx, rm, cfg, nsim=ctx.pick(30, 200), nrandom=ctx.pick(120, 600),
                                                     nevents=ctx.pick(40, 100), seed_base=ctx.seed + 50 + ci)
     verdicts = relaycheck.judge(ctx, consts, traces, 'C09 relay traces cfg %d' % ci)
     relaycheck.report(ctx, traces, origins, verdicts, relaycheck.C09_FLAGS)
